@@ -38,6 +38,14 @@ CHECKS = {
         "note": TRUST + " A plain variable read is not an effect (ordering of reads against later callee writes is unspecified, as in Go).",
         "technique": "effect-probe families enumerated by TLC + trace validation of the evaluation log against the TLA+ machine",
     },
+    "C11": {
+        "text": "spec/Lexer.tla is the reference scanner as a state machine (one action per token class, longest match); TLC checks on it that every consumed "
+                "character is accounted for once (Accounted), that positions are those of the first character (Positions) and that exactly one token class "
+                "applies at every point (Deterministic), and validates the token list lexer.Tokenize returns for every text of spec/FamC11.tla "
+                "(all lexeme pairs x separators, all short string bodies in both quote styles, error and position texts): types, values, rows, columns, error flag.",
+        "note": "Trusted: TLC; the token grammar of DESIGN.md 6.2 (Go's, with '-' joining a number only in prefix position); the harness maps one two-byte UTF-8 letter to an ASCII placeholder.",
+        "technique": "TLA+ reference scanner + TLC validation of recorded lexer.Tokenize results over TLC-enumerated text families",
+    },
 }
 
 NOT_APPLICABLE = {}
